@@ -346,7 +346,13 @@ def run(ctx):
         w = f['witness']
         s1 = lib.compile_string(w['v1'], w['codec'])
         s2 = lib.compile_string(w['v2'], w['codec'])
-        e = lib.attempt(s2.encode, w['type'], eval(w['value']))
+        if 'data' in w:
+            # a version-2 encoding given octet by octet (a form the library's own encoder does not produce)
+            e = ('ok', bytes.fromhex(w['data']))
+            if lib.attempt(s2.decode, w['type'], e[1]) != ('ok', eval(w['value'])):
+                e = ('err', 'witness', 'version 2 does not read the witness octets as the stated value')
+        else:
+            e = lib.attempt(s2.encode, w['type'], eval(w['value']))
         d = lib.attempt(s1.decode, w['type'], e[1]) if e[0] == 'ok' else e
         if d[0] != 'ok' or d[1] != eval(w['expect']):
             ctx.known_finding(f['id'], f['what'])
